@@ -5,6 +5,15 @@ import os
 
 V = os.path.dirname(os.path.dirname(os.path.abspath(__file__)))
 CHECKS = {
+    'C02': ('reference receiver decoder applied to the same corrupted byte stream decides which packets are good; delivered messages (debug-mode queue) must equal them in order, once; four chunkings incl. gaps after escapes; round trip of the sender\'s own output',
+            'reference decoder in vlib/model.py; packets <= 255 bytes (longer ones are C12); gcc ASan/UBSan',
+            'runtime monitoring: reference-decoder oracle over fed byte streams vs. delivered messages + ASan/UBSan'),
+    'C03': ('exact reference flow-control model for clean single-submitter histories compared with the wire at every checkpoint (budget, held FIFO, release after answers and after expiry under virtual time); two-sided-safe lower bound on outstanding bytes for duplicated/out-of-order answers and for sender threads racing the receiver (asan+tsan)',
+            'own request->answer/size table; virtual time() via link-time wrapper; expiry probed at +1 s/+3 s with the opportunity (uplink message) the library needs to notice it',
+            'runtime monitoring: reference-model oracle over recorded wire/uplink history, virtual time, stress + TSan'),
+    'C06': ('destination table (README + statement) vs. where each of all 256 type codes is found (message/error/intern queue or consumed) in both modes; queue bound/drop-oldest/FIFO model at fill levels around 128; exactly-once over 1-8 reader threads racing the receiver (asan with LSan, tsan)',
+            'destination table vlib/uplink.py; MSG_VENDOR and undocumented booster states accept any single destination; intern queue read through bidib_read_intern_message',
+            'runtime monitoring: routing/queue-model oracle over drained queues + ASan/LSan/TSan'),
     'C01': ('strict reference decoder over everything handed to write_n, multiset/order equality with the reference encoding of every accepted call, capacity bound; sequential (debug), every capacity 0..255 (normal mode) and concurrent senders with auto-flush under asan+tsan',
             'reference codec (bitwise CRC) and spec table in vlib/; simulated bus answers every request; gcc ASan/UBSan/TSan',
             'runtime monitoring: reference-decoder oracle over recorded wire bytes + ASan/UBSan/TSan'),
